@@ -51,7 +51,7 @@ func init() {
 
 const (
 	c09Watchdog     = 2 * time.Second
-	c09StepDeadline = 6 * time.Second
+	c09StepDeadline = 4 * time.Second
 	c09MemLimitKB   = 2 * 1024 * 1024 // ulimit -v of the worker
 )
 
@@ -1084,6 +1084,10 @@ func (d *c09Driver) ensureWorker() {
 		d.worker.kill()
 	}
 	d.worker = c09StartWorker(d.backends)
+	// every case meets a daemon that has already served a client (replays of single cases included)
+	if !d.worker.canary(d.hosts) {
+		panic("c09: a fresh worker does not answer the canary query: " + d.worker.deathNote())
+	}
 }
 
 func (d *c09Driver) finish(obs *c09Obs, in *c09Input) {
@@ -1386,7 +1390,7 @@ func c09RobustMain(args []string) int {
 	}
 	failures := 0
 	for i, in := range inputs {
-		if failures >= 10 {
+		if failures >= 6 {
 			// a daemon that dies or hangs again and again: the cases so far say enough (a hang costs its deadline each time)
 			fmt.Fprintf(os.Stderr, "c09robust: %d cases ended with a dead or hung worker, not running the remaining %d cases\n", failures, len(inputs)-i)
 			inputs = inputs[:i]
